@@ -58,6 +58,7 @@ func verifLoopDomains(c *v1.DomainConfig, s *v1.ServerConfig, idx int, m int) bo
 //
 //verif:contract ~/pkg/config/v1/validation.ValidateProxyConfigurerForServer
 //verif:props C18
+//verif:modifies
 func verif_ValidateProxyConfigurerForServer(c v1.ProxyConfigurer, s *v1.ServerConfig, k int) {
 	verif.Requires(c != nil, "configuration_present")
 	err := ValidateProxyConfigurerForServer(c, s)
